@@ -2,7 +2,9 @@
 C08, part 2 — forwarding: TTL, ARP look-ups, host next hop, addressee (model: `Model/Forward.lean`).
 -/
 import PrimaiteModel.Model.Forward
+import PrimaiteModel.Model.Filter
 import PrimaiteModel.Gen.Forward
+import PrimaiteModel.Gen.Filter
 namespace Primaite.Forward
 open Primaite.Route (findBestRoute)
 
@@ -33,6 +35,25 @@ theorem C08_gen_ttl :
 theorem C08_gen_accept :
     Gen.Forward.nicUnicastNeedsNodeIp = true ∧
     Gen.Forward.routerReceiveOrder = ["on", "acl", "deny-return", "learn", "software-if-own-else-process"] := by decide
+
+/-- The wireless access point's `receive_frame` has the shape and the acceptance test of a router interface (so the model
+treats it as one), and the host's outbound-interface resolution carries the repair of F-57 (`resolveOut`, host branch:
+`if dst == g then none`). -/
+theorem C08_gen_wireless_and_gateway :
+    Gen.Forward.wapDropBelow = 1 ∧ Gen.Forward.wapAcceptsLikeRouterInterface = true ∧
+    Gen.Forward.airTransmitToOtherEnabled = true ∧ Gen.Forward.gatewayNotViaGateway = true := by decide
+
+/-- The firewall's arrival-port dispatch, the calls of each entry point in source order, "verdict first" and the missing
+operating-state test, as regenerated from firewall.py by C06's extractor, are what `routerRecv` implements for `fw = some _`
+(ports 1 / 2 / 3 of the source are interfaces 0 / 1 / 2 of the model: `ingressList`). -/
+theorem C08_gen_firewall :
+    Gen.Filter.portDispatch = [(1, "extIn"), (2, "intOut"), (3, "dmzOut")] ∧
+    Gen.Filter.entryCalls = [("extIn", ["learn", "session", "entry:dmzIn", "entry:intIn"]), ("extOut", ["process"]),
+      ("intIn", ["process"]), ("intOut", ["learn", "session", "entry:dmzIn", "entry:extOut"]), ("dmzIn", ["process"]),
+      ("dmzOut", ["learn", "session", "lookup", "lookup", "entry:extOut", "entry:intIn"])] ∧
+    Gen.Filter.verdictFirst = true ∧
+    Gen.Filter.powerGuard = [("router", true), ("firewall", false), ("switch", false), ("host", false)] ∧
+    ingressList 0 = some 0 ∧ ingressList 1 = some 3 ∧ ingressList 2 = some 5 ∧ ingressList 3 = none := by decide
 
 /-! ### TTL: every receive and every routing hop lowers it by one; exhausted frames are not processed -/
 
@@ -276,6 +297,39 @@ theorem C08_host_no_route_no_interface (fuel : Nat) (st : St) (n : Nat) (nd : No
     resolveOut (fuel + 1) st n dst = (st, none) := by
   simp only [resolveOut, hn, hoff, hk, hg]
 
+/-! ### the default gateway is never resolved through the default gateway (repair F-57) -/
+
+/-- `resolve_outbound_network_interface` for the host's OWN DEFAULT GATEWAY answers at once, whatever the fuel, without
+touching the state and without any nested look-up: an enabled interface on the gateway's network, else nothing.  Before the
+repair the second case asked ARP for the gateway's interface, ARP sent a request for the gateway, which came back here —
+without end (multi-homed host whose gateway-side NIC is disabled, gateway outside the host's subnets). -/
+theorem C08_gateway_resolved_without_recursion (st : St) (n : Nat) (nd : Node) (g : Ip)
+    (hn : st.node? n = some nd) (hk : nd.kind = .host) (hg : nd.gateway = some g) :
+    ∀ fuel, resolveOut (fuel + 1) st n g = (st, firstEnabledIn nd.ifaces g 0) := by
+  intro fuel
+  cases hfe : firstEnabledIn nd.ifaces g 0 with
+  | some i => simp only [resolveOut, hn, hfe]
+  | none => simp only [resolveOut, hn, hfe, hk, hg, beq_self_eq_true, if_true]
+
+/-- … so an ARP request for the default gateway from a host that has no enabled interface on the gateway's network sends
+nothing and changes nothing, at any fuel: the cycle `send_arp_request → resolve_outbound_network_interface →
+get_default_gateway_network_interface → get_arp_cache_network_interface → send_arp_request` of the call graph is cut. -/
+theorem C08_gateway_request_cut (st : St) (n : Nat) (nd : Node) (g t : Ip)
+    (hn : st.node? n = some nd) (hk : nd.kind = .host) (hg : nd.gateway = some g)
+    (hoff : firstEnabledIn nd.ifaces g 0 = none) (ht : t = g ∨ firstIn nd.ifaces t 0 = none) :
+    ∀ fuel, sendArpReq (fuel + 2) st n t = st := by
+  intro fuel
+  have hr := C08_gateway_resolved_without_recursion st n nd g hn hk hg fuel
+  rw [hoff] at hr
+  by_cases hc : (nd.arpGet t).isSome = true
+  · simp only [sendArpReq, hn, hc, if_true]
+  · have hc' : (nd.arpGet t).isSome = false := by simpa using hc
+    rcases ht with rfl | ht
+    · cases hfi : firstIn nd.ifaces t 0 with
+      | some i => simp only [sendArpReq, hn, hc', hfi, Option.isSome_some, if_true, hr, Bool.false_eq_true, if_false]
+      | none => simp only [sendArpReq, hn, hc', hfi, Option.isSome_none, hg, hr, Bool.false_eq_true, if_false]
+    · simp only [sendArpReq, hn, hc', ht, Option.isSome_none, hg, hr, Bool.false_eq_true, if_false]
+
 /-! ### routers forward along the route `find_best_route` selects -/
 
 /-- A router that holds a unicast frame for an off-link destination (no cache entry, no interface subnet contains it)
@@ -374,23 +428,99 @@ theorem C08_host_accepts_only_own_address (nd : Node) (ifc : Iface) (f : Frame) 
       unfold ifaceWithIp at hw
       exact ⟨own, List.mem_of_find?_eq_some hw, by simpa using List.find?_some hw⟩
 
-/-- a router passes a frame up to its own software only for one of its own addresses
-(`check_send_frame_to_session_manager`); everything else goes to `process_frame`. -/
-theorem C08_router_software_only_own_address (fuel : Nat) (st : St) (n i : Nat) (f : Frame) (nd : Node) (ifc : Iface)
-    (hn : st.node? n = some nd) (hi : st.iface? n i = some ifc) (hon : nd.on = true)
-    (hacl : ((f.pl == .dataReq || f.pl == .dataRep) && !nd.flag) = false)
+/-- what lets a frame that is not for an own address through a router (powered on, first verdict permits) or a firewall
+(first verdict of the arrival port's list permits, arrival port external or internal, the second list chosen by the
+destination permits). -/
+def transitOk (nd : Node) (i : Nat) (pl : Pl) (dst : Ip) : Bool :=
+  match nd.fw with
+  | none => nd.on && !aclDenies nd i pl
+  | some acl => !aclDenies nd i pl && i != 2 && fwPermits acl (secondList nd i dst) pl
+
+/-- a router / firewall passes a frame up to its own software only for one of its own addresses
+(`check_send_frame_to_session_manager`); everything else that the verdicts permit goes to `process_frame`, after the
+source pair was learned. -/
+theorem C08_router_transit (fuel : Nat) (st : St) (n i : Nat) (f : Frame) (nd : Node) (ifc : Iface)
+    (hn : st.node? n = some nd) (hi : st.iface? n i = some ifc) (hok : transitOk nd i f.pl f.dstIp = true)
     (hnot : ifaceWithIp nd.ifaces f.dstIp = none) :
     routerRecv (fuel + 1) st n i f =
       routerProcess fuel (st.modNode n (fun nd => nd.addArp f.srcIp f.srcMac i)) n i f := by
-  simp only [routerRecv, hn, hi, hon, Bool.not_true, Bool.false_eq_true, if_false, hnot, hacl]
+  unfold transitOk at hok
+  cases hfw : nd.fw with
+  | none =>
+    simp only [hfw, Bool.and_eq_true, Bool.not_eq_true'] at hok
+    simp only [routerRecv, hn, hi, hfw, hok.1, hok.2, Option.isNone_none, Bool.not_true, Bool.and_false, Bool.false_eq_true,
+      if_false, hnot]
+  | some acl =>
+    simp only [hfw, Bool.and_eq_true, Bool.not_eq_true', bne_iff_ne, ne_eq] at hok
+    have h2 : (i == 2) = false := by simpa using hok.1.2
+    simp only [routerRecv, hn, hi, hfw, hok.1.1, hok.2, h2, Option.isNone_some, Bool.false_and, Bool.false_eq_true, if_false,
+      hnot, if_true]
 
-/-- a router whose ACL does not permit the service drops its frames before anything else happens (no ARP learning, no
-forwarding): "exchanges that every device on the path permits" is a real precondition. -/
-theorem C08_router_acl_denies_first (fuel : Nat) (st : St) (n i : Nat) (f : Frame) (nd : Node) (ifc : Iface)
-    (hn : st.node? n = some nd) (hi : st.iface? n i = some ifc)
+/-- the plain-router reading: powered on, the default ACL (ARP exempt, ICMP permitted, the service only with a rule). -/
+theorem C08_router_software_only_own_address (fuel : Nat) (st : St) (n i : Nat) (f : Frame) (nd : Node) (ifc : Iface)
+    (hn : st.node? n = some nd) (hi : st.iface? n i = some ifc) (hfw : nd.fw = none) (hon : nd.on = true)
+    (hacl : ((f.pl == .dataReq || f.pl == .dataRep) && !nd.flag) = false)
+    (hnot : ifaceWithIp nd.ifaces f.dstIp = none) :
+    routerRecv (fuel + 1) st n i f =
+      routerProcess fuel (st.modNode n (fun nd => nd.addArp f.srcIp f.srcMac i)) n i f :=
+  C08_router_transit fuel st n i f nd ifc hn hi (by simp [transitOk, aclDenies, hfw, hon, hacl]) hnot
+
+/-- a router or firewall whose first verdict denies the frame's class drops it before anything else happens (no ARP
+learning, no hand-over to software, no forwarding): "exchanges that every device on the path permits" is a real
+precondition.  On a firewall this includes ARP (no exemption). -/
+theorem C08_first_verdict_denies_first (fuel : Nat) (st : St) (n i : Nat) (f : Frame)
+    (hden : ∀ nd, st.node? n = some nd → aclDenies nd i f.pl = true) :
+    routerRecv (fuel + 1) st n i f = (st, f) := by
+  simp only [routerRecv]
+  split
+  · rename_i nd ifc hn hi
+    simp [hden nd hn]
+  · rfl
+
+theorem C08_router_acl_denies_first (fuel : Nat) (st : St) (n i : Nat) (f : Frame) (nd : Node) (_ifc : Iface)
+    (hn : st.node? n = some nd) (hfw : nd.fw = none)
     (hpl : f.pl = .dataReq ∨ f.pl = .dataRep) (hflag : nd.flag = false) :
     routerRecv (fuel + 1) st n i f = (st, f) := by
-  rcases hpl with h | h <;> simp [routerRecv, hn, hi, h, hflag]
+  apply C08_first_verdict_denies_first
+  intro nd' hn'
+  rw [hn] at hn'
+  have : nd' = nd := by simpa using hn'.symm
+  subst this
+  rcases hpl with h | h <;> simp [aclDenies, hfw, h, hflag]
+
+/-- a firewall's second verdict (the list chosen by the destination) denies: the source pair was learned, nothing else. -/
+theorem C08_firewall_second_verdict_drops (fuel : Nat) (st : St) (n i : Nat) (f : Frame) (nd : Node) (ifc : Iface)
+    (acl : List (Nat × Nat)) (hn : st.node? n = some nd) (hi : st.iface? n i = some ifc) (hfw : nd.fw = some acl)
+    (h1 : aclDenies nd i f.pl = false) (hi2 : (i == 2) = false)
+    (h2 : fwPermits acl (secondList nd i f.dstIp) f.pl = false) (hnot : ifaceWithIp nd.ifaces f.dstIp = none) :
+    routerRecv (fuel + 1) st n i f = (st.modNode n (fun nd => nd.addArp f.srcIp f.srcMac i), f) := by
+  simp only [routerRecv, hn, hi, hfw, h1, h2, hi2, Option.isNone_some, Bool.false_and, Bool.false_eq_true, if_false, hnot]
+
+/-- the port / rule-list tables of the firewall are those of C06's element model (`Model/Filter.lean`, itself tied to
+the source by `Gen/Filter.lean`): arrival port ↦ entry point ↦ rule list. -/
+def listOfAclId : Filter.AclId → Option Nat
+  | .extIn => some 0 | .extOut => some 1 | .intIn => some 2 | .intOut => some 3 | .dmzIn => some 4 | .dmzOut => some 5
+  | .router => none
+
+theorem C08_firewall_tables_match_filter :
+    (∀ i, ingressList i = (Filter.portEntry i).bind (fun e => listOfAclId (Filter.entryAcl e))) ∧
+    Filter.entryCalls .extIn = [.learn, .session, .entry .dmzIn, .entry .intIn] ∧
+    Filter.entryCalls .intOut = [.learn, .session, .entry .dmzIn, .entry .extOut] ∧
+    Filter.entryCalls .dmzOut = [.learn, .session, .lookup, .lookup, .entry .extOut, .entry .intIn] ∧
+    (∀ nd dst, secondList nd 0 dst = if inDmzNet nd dst then 4 else 2) ∧
+    (∀ nd dst, secondList nd 1 dst = if inDmzNet nd dst then 4 else 1) ∧
+    dmzSecondList Filter.extPort = some 1 ∧ dmzSecondList Filter.intPort = some 2 ∧ dmzSecondList Filter.dmzPort = none ∧
+    Filter.powerGuard .firewall = false ∧ Filter.powerGuard .router = true := by
+  refine ⟨?_, rfl, rfl, rfl, fun _ _ => rfl, fun _ _ => rfl, rfl, rfl, rfl, rfl, rfl⟩
+  intro i
+  unfold ingressList Filter.portEntry Filter.extPort Filter.intPort Filter.dmzPort
+  by_cases h0 : i = 0
+  · subst h0; rfl
+  · by_cases h1 : i = 1
+    · subst h1; rfl
+    · by_cases h2 : i = 2
+      · subst h2; rfl
+      · simp [h0, h1, h2]
 
 /-! ### non-vacuity: a concrete network (host A — host B on one link; A also has a default gateway) -/
 
@@ -430,6 +560,13 @@ example : exR.arpGet 0xAC100005#32 = none ∧ firstIn exR.ifaces 0xAC100005#32 0
     (exR.ifaces[1]?.map (fun o => o.enabled && !o.inNet 0xAC100005#32)) = some true ∧
     findBestRoute exR.routes ipFar = .default 0x0A000002#32 ∧
     findBestRoute { exR.routes with default := none } ipFar = .noRoute := by decide
+/-- hypotheses of `C08_gateway_request_cut`: a dual-homed host whose NIC towards the gateway is disabled, the other up. -/
+def exDual : Node :=
+  { kind := .host, gateway := some ipGw,
+    ifaces := [{ mac := 1, ip := ipA, plen := 24, enabled := false, peer := some (1, 0) },
+               { mac := 3, ip := 0xC0A80205#32, plen := 24, enabled := true, peer := some (1, 1) }] }
+example : exDual.kind = .host ∧ exDual.gateway = some ipGw ∧ firstEnabledIn exDual.ifaces ipGw 0 = none ∧
+    firstIn exDual.ifaces ipFar 0 = none ∧ exDual.ifaces.any (·.enabled) = true := by decide
 example : hostArpNext exA ipFar false false = .go ipFar true false ∧ hostArpNext exA ipFar true false = .go ipGw true true := by
   decide
 
